@@ -221,7 +221,8 @@ impl<'a> From<Value<'a>> for NaiveDate {
 impl<'a> From<Value<'a>> for NaiveDateTime {
     fn from(val: Value<'a>) -> Self {
         if let ValueInner::Datetime(mut v) = val.0 {
-            assert!(v.len() == 7 || v.len() == 11);
+            let len = v.len();
+            assert!(len == 7 || len == 11);
             if let Some(d) = NaiveDate::from_ymd_opt(
                 i32::from(v.read_u16::<LittleEndian>().unwrap()),
                 u32::from(v.read_u8().unwrap()),
@@ -231,7 +232,7 @@ impl<'a> From<Value<'a>> for NaiveDateTime {
                 let m = u32::from(v.read_u8().unwrap());
                 let s = u32::from(v.read_u8().unwrap());
 
-                let d = if v.len() == 11 {
+                let d = if len == 11 {
                     let us = v.read_u32::<LittleEndian>().unwrap();
                     d.and_hms_micro_opt(h, m, s, us)
                 } else {
@@ -251,7 +252,8 @@ use std::time::Duration;
 impl<'a> From<Value<'a>> for Duration {
     fn from(val: Value<'a>) -> Self {
         if let ValueInner::Time(mut v) = val.0 {
-            assert!(v.is_empty() || v.len() == 8 || v.len() == 12);
+            let len = v.len();
+            assert!(len == 0 || len == 8 || len == 12);
 
             if v.is_empty() {
                 return Duration::from_secs(0);
@@ -266,7 +268,7 @@ impl<'a> From<Value<'a>> for Duration {
             let hours = u64::from(v.read_u8().unwrap());
             let minutes = u64::from(v.read_u8().unwrap());
             let seconds = u64::from(v.read_u8().unwrap());
-            let micros = if v.len() == 12 {
+            let micros = if len == 12 {
                 v.read_u32::<LittleEndian>().unwrap()
             } else {
                 0
